@@ -293,6 +293,10 @@ def _havocked(eng, base: State, fi, assigned, fields, refs, events, values_of, d
         # is caught by the definite-assignment check on the first iteration path
     for f in sorted(fields):
         hs.heap.fields[f] = z3.Const(sym.fresh_name(f"F_{f}"), z3.ArraySort(sym.IntS, Val))
+    if eng.contracts is not None:
+        for name, a in eng.contracts.aggregates.items():
+            if set(a["fields"]) & set(fields) or f"__in_{a['over']}" in fields:
+                hs.ghost["agg:" + name] = sym.fresh_int("agg_" + name)
     for r in refs:
         hs.heap.c_dom = z3.Store(hs.heap.c_dom, r, sym.fresh_const("hdom", sym.SetS))
         hs.heap.c_map = z3.Store(hs.heap.c_map, r, sym.fresh_const("hmap", sym.MapS))
